@@ -201,6 +201,73 @@ func (p *Path) stubByName(name string, fn *ssa.Function, args []Value) (Value, b
 			p.callValue(args[1], nil)
 		}
 		return nil, true
+	case "(*sync.Map).Load", "(*sync.Map).Store", "(*sync.Map).LoadOrStore", "(*sync.Map).Delete", "(*sync.Map).LoadAndDelete", "(*sync.Map).Range", "(*sync.Map).Swap":
+		c := args[0].(Ptr).p
+		if p.syncMaps == nil {
+			p.syncMaps = map[*Value]*Map{}
+		}
+		m := p.syncMaps[c]
+		if m == nil {
+			p.mapSerial++
+			m = &Map{serial: p.mapSerial}
+			p.syncMaps[c] = m
+		}
+		method := strings.TrimPrefix(name, "(*sync.Map).")
+		switch method {
+		case "Load":
+			if e := p.mapFind(m, args[1]); e != nil {
+				return Tuple{copyVal(e.v), tTrue}, true
+			}
+			return Tuple{Iface{}, tFalse}, true
+		case "Store":
+			p.noteWriteCell(c)
+			p.mapUpdate(m, args[1], args[2])
+			return nil, true
+		case "Swap":
+			p.noteWriteCell(c)
+			e := p.mapFind(m, args[1])
+			var old Value = Iface{}
+			loaded := e != nil
+			if loaded {
+				old = e.v
+			}
+			p.mapUpdate(m, args[1], args[2])
+			return Tuple{old, mkBool(loaded)}, true
+		case "LoadOrStore":
+			if e := p.mapFind(m, args[1]); e != nil {
+				return Tuple{copyVal(e.v), tTrue}, true
+			}
+			p.noteWriteCell(c)
+			p.mapUpdate(m, args[1], args[2])
+			return Tuple{args[2], tFalse}, true
+		case "Delete", "LoadAndDelete":
+			e := p.mapFind(m, args[1])
+			if e != nil {
+				p.noteWriteCell(c)
+				var ne []*MapEntry
+				for _, x := range m.entries {
+					if x != e {
+						ne = append(ne, x)
+					}
+				}
+				m.entries = ne
+			}
+			if method == "Delete" {
+				return nil, true
+			}
+			if e != nil {
+				return Tuple{e.v, tTrue}, true
+			}
+			return Tuple{Iface{}, tFalse}, true
+		case "Range":
+			for _, e := range append([]*MapEntry{}, m.entries...) {
+				r := p.callValue(args[1], []Value{e.k, e.v}).(*Term)
+				if !p.branch(r, "syncmap-range-continue") {
+					break
+				}
+			}
+			return nil, true
+		}
 	case "(*sync.Pool).Get":
 		c := args[0].(Ptr).p
 		if p.pools == nil {
